@@ -453,6 +453,33 @@ def run_outalias(u, out):
                     out['fails'].append({'sig': 'C14|dot out=|destination %s|returned value is not the product' % dname, 'case': case, 'detail': {}})
 
 
+def run_symmetric_consumers(u, out):
+    """functions that expect a symmetric argument (eigh, eigh1, cholesky, svd via eigh) read it as they please, but must not write
+    to it: higher coefficients symmetric only up to rounding, grossly non-symmetric, or stored in one triangle"""
+    rng = np.random.default_rng(23)
+    for N in (2, 3):
+        for D in (2, 3):
+            for P in (1, 2):
+                base = np.round(rng.uniform(-1, 1, size=(P, N, N)) * 8) / 8.0
+                base = base + np.swapaxes(base, -1, -2) + np.eye(N) * (4.0 + np.arange(N))
+                H = np.round(rng.uniform(-1, 1, size=(D - 1, P, N, N)) * 8) / 8.0
+                variants = {'rounding asymmetry': H + np.swapaxes(H, -1, -2) + np.triu(np.ones((N, N)), 1) * 2.0 ** -50,
+                            'non-symmetric': H, 'lower triangle only': np.tril(H)}
+                for vn, hv in variants.items():
+                    data = np.concatenate([base[None], hv])
+                    for fn, f in (('eigh', algopy.eigh), ('eigh1', lambda a: UTPM.eigh1(a)[:2]), ('cholesky', algopy.cholesky), ('svd', algopy.svd)):
+                        x = UTPM(data.copy())
+                        out['evals'] += 1
+                        out['keys'].append('symcons|%s|%s|%d|%d|%d' % (fn, vn, N, D, P))
+                        try:
+                            f(x)
+                        except Exception:
+                            continue
+                        if not np.array_equal(x.data, data):
+                            out['fails'].append({'sig': 'C14|%s|argument modified|higher coefficients %s' % (fn, vn), 'case': {'kind': 'symcons', 'fn': fn, 'variant': vn, 'N': N, 'D': D, 'P': P},
+                                                 'detail': {'max_change': float(np.abs(x.data - data).max())}})
+
+
 def run_unit(u):
     out = {'evals': 0, 'keys': [], 'fails': [], 'samples': [], 'counters': {}}
     if u['kind'] == 'entries':
@@ -470,6 +497,7 @@ def run_unit(u):
         run_argwrite(u, out)
     elif u['kind'] == 'outalias':
         run_outalias(u, out)
+        run_symmetric_consumers(u, out)
     elif u['kind'] == 'inplace':
         o2 = {'evals': 0, 'nontrivial': 0, 'fails': [], 'samples': [], 'counters': {}}
         C02.run_alias({'tier': u['tier']}, o2)
@@ -494,6 +522,9 @@ def replay(case):
         return [f for f in out['fails'] if f['case']['op'] == case['op'] and f['case']['D'] == case['D'] and f['case']['P'] == case['P']]
     if case['kind'] == 'inplace':
         return C02.replay(dict(case, kind='alias'))
+    if case['kind'] == 'symcons':
+        run_symmetric_consumers({}, out)
+        return [f for f in out['fails'] if all(f['case'].get(k) == case.get(k) for k in ('fn', 'variant', 'N', 'D', 'P'))]
     if case['kind'] == 'outalias':
         run_outalias({}, out)
         return [f for f in out['fails'] if all(f['case'].get(k) == case.get(k) for k in ('form', 'out', 'D', 'P'))]
